@@ -104,7 +104,7 @@ H2_ASSUME = ["probes are never placed exactly at an expiry instant except via vi
              "simnet stands in for the OS socket layer; relay address generator and permission handler are harness-controlled inputs"]
 
 
-H2_REAL = ["real-udp-misdelivery", "real-udp-wrong-source", "real-udp-lost", "real-udp-lifecycle", "real-udp-setup"]
+H2_REAL = ["real-udp-misdelivery", "real-udp-wrong-source", "real-udp-lost", "real-udp-lifecycle", "real-udp-setup", "h2-setup"]
 
 
 def h2prop(modules, view, outs, alarms, extra_assume=()):
@@ -138,12 +138,12 @@ PROPS.update({
                         "it does not hold (finding F18)"]),
                 harnesses=["H2", "H8"]),
     "C15": h2prop(["TurnModel.Props.C15"], ["*"], ["ev", "net", "dclosed", "cclosed"],
-                  ["allocation-count-mismatch", "sockets-left-after-close", "server-close-leaves-control-connections", "even-port-probe-left-open"],
+                  ["allocation-count-mismatch", "sockets-left-after-close", "server-close-leaves-control-connections", "even-port-probe-left-open", "bind-response-lost-leaks-peer-connection"],
                   ["PARTIAL: goroutines and timers are ghost state in the model (one timer per entity, one reader goroutine per allocation); "
                    "their real existence is observed only through the simnet open/close log and the synctest bubble draining at the end of every history"]),
     "C16": dict(h2prop(["TurnModel.Props.C16"],
                        ["m:connect", "m:cbind", "pconn", "pc2p", "pp2c", "pclosec", "pclosep", "adv", "cclose", "rerr", "close", "state"],
-                       ["resp", "dial", "catt", "cclosed", "p2p", "p2c", "dclosed"], ["manager-blocked-by-dial", "h9-setup", "server-wedged"],
+                       ["resp", "dial", "catt", "cclosed", "p2p", "p2c", "dclosed"], ["manager-blocked-by-dial", "h9-setup", "server-wedged", "bind-response-lost-leaks-peer-connection"],
                        ["PARTIAL: io.Copy / TCP byte piping is the runtime's; byte integrity of the pipe is observed by the harness, not proved about Go",
                         "connection ids are canonicalised to first-occurrence indices (the real ids are random)"]),
                 env={"VERIF_H2_MODE": "tcp"}, harnesses=["H2", "H9"]),
